@@ -582,6 +582,62 @@ def check_replay_into_others(seed: int) -> dict:
     return res
 
 
+def check_answer_attribution(seed: int) -> dict:
+    """
+    "Nobody can make a node attribute a message - and thereby a verified-peer entry - to a key whose private half they
+    do not hold."  The DHT overlays attribute ANSWERS: N asks a node it only knows from somebody's node list - the key V
+    of a victim at the address of an impostor M - for a ping / find / store; M answers the request, authentically, with
+    its OWN key.  Then N's maintenance strategy (PingChurn) runs.  Afterwards N must not list V as a verified peer, and
+    the request must not have been completed as "V answered".  Control: the answer really comes from V's key.
+    """
+    from ipv8.dht.churn import PingChurn  # noqa: PLC0415
+    from ipv8.dht.routing import Node  # noqa: PLC0415
+    out = {"evaluations": 0, "violations": []}
+    for oname in ("DHTCommunity", "DHTDiscoveryCommunity"):
+        for kind in ("ping", "find"):
+            for who in ("impostor", "genuine"):
+                w = simnet.World(("c01-attr", oname, kind, who, seed))
+                try:
+                    ks = fixtures.rotate(seed, 3)
+                    n, m, v = w.add_node("N", ks[0]), w.add_node("M", ks[1]), w.add_node("V", ks[2])
+                    on, om, ov_ = (overlays.make(x, oname) for x in (n, m, v))
+                    responder = m if who == "impostor" else v
+                    v_key = v.my_peer.public_key
+                    claimed = Node(v_key, responder.address)          # "V lives at <responder's address>", says a node list
+                    fut = n.run(on.ping, claimed) if kind == "ping" else \
+                        n.run(on._send_find_request, claimed, v.my_peer.mid, False)  # noqa: SLF001
+                    w.flush()
+                    out["evaluations"] += 1
+                    rt = on.get_routing_table(claimed)
+                    if fut.done() and not fut.cancelled() and fut.exception() is None:
+                        rt.add(claimed)                                # what _contact_node does with an answered node
+                    n.run(PingChurn(on, ping_interval=0.0).take_step)
+                    w.flush()
+                    listed = on.network.get_verified_by_public_key_bin(v_key.key_to_bin())
+                    answered = fut.done() and not fut.cancelled() and fut.exception() is None
+                    if who == "impostor" and (listed is not None or answered):
+                        out["violations"].append((
+                            f"answer-attributed-to-claimed-key:{kind}",
+                            f"{oname}: N asked the node (key of V, address of M) for a {kind}; M answered with its own key; "
+                            f"N {'completed the request as answered by V' if answered else 'did not complete the request'}"
+                            f"{' and, after one PingChurn step, lists V as a verified peer at ' + str(listed.address) if listed is not None else ''}"
+                            " - V's key never signed anything",
+                            {"attribution": True, "seed": seed}))
+                    if who == "genuine" and not answered:
+                        out["violations"].append((f"harness:genuine-answer-not-accepted:{kind}",
+                                                  f"{oname}: the control ({kind} answered by V itself) did not complete",
+                                                  {"attribution": True, "seed": seed}))
+                finally:
+                    w.close()
+    seen, uniq = set(), []
+    for key, what, rp in out["violations"]:
+        if key not in seen:
+            seen.add(key)
+            uniq.append((key, what, rp))
+    out["violations"] = uniq
+    return out
+
+
 def _work(chunk: list) -> list:
     return [check_item(it) for it in chunk]
 
@@ -642,8 +698,12 @@ def run(ctx: core.Ctx) -> core.Report:
     multi = check_replay_into_others(_SEED)
     for key, what, rp in multi["violations"]:
         violations.append(core.Violation(key, what, rp))
+    attr = check_answer_attribution(_SEED)
+    for key, what, rp in attr["violations"]:
+        violations.append(core.Violation(key, what, rp))
     cov = {
-        "evaluations": evals + multi["evaluations"],
+        "evaluations": evals + multi["evaluations"] + attr["evaluations"],
+        "answer_attribution_cases": attr["evaluations"],
         "distinct_nontrivial": evals - sum(v for k, v in classes.items() if k.startswith("valid")),
         "rule": "one evaluation = one datagram delivered through Endpoint.notify_listeners of a real receiver overlay; "
                 "per (overlay class, signed message id, sender curve) the valid datagram plus every mutation: each bit "
@@ -678,6 +738,8 @@ def replay(ctx: core.Ctx, data) -> list:  # noqa: ANN001
     if data.get("table"):
         return [v for v in run(ctx).violations if v.key.startswith("auth-table")]
     _SEED = data.get("seed", 0)
+    if data.get("attribution"):
+        return [core.Violation(k, w) for k, w, _ in check_answer_attribution(_SEED)["violations"]]
     if data.get("replay-multi"):
         return [core.Violation(k, w) for k, w, _ in check_replay_into_others(_SEED)["violations"]]
     item = tuple(data["item"])
